@@ -395,7 +395,7 @@ func parseAuthzPublic(rec *httptest.ResponseRecorder, out *world.AuthzOut) { wor
 func c20taint(c *run.Ctx) {
 	c.Need("c20_storage_calls_scanned", 1)
 	c.Need("c20_secrets_tracked", 1)
-	n := c.N(64, 2400)
+	n := c.N(64, 8000)
 	keys := world.GetKeys()
 	for i := 0; i < n; i++ {
 		gi := i*c.NShards + c.Shard
